@@ -544,6 +544,8 @@ func run(c *vh.Ctx) {
 	defer os.RemoveAll(dir)
 	scratchDir = dir
 	os.WriteFile(filepath.Join(dir, "data.txt"), []byte("1 2 3\nx y z\n\xff\xfe 7\n"), 0o644)
+	// lines that END in stray bytes, half characters, quotes and separators (G02-3: a separator taken for U+FFFD, three bytes wide)
+	os.WriteFile(filepath.Join(dir, "bin.txt"), []byte("a\xff\nq,\xc3\n\"x\xff\n,\xff\n\xe2\x82\nb\t\xfe\n\"\n#\xff\nlast\xff"), 0o644)
 	os.WriteFile(filepath.Join(dir, "empty.txt"), nil, 0o644)
 	os.Mkdir(filepath.Join(dir, "adir"), 0o755)
 
